@@ -140,6 +140,12 @@ fn run_inner(t: &[&str]) -> Vec<u128> {
                 } else if let Some(rest) = op.strip_prefix("by:") {
                     let b = unhex(rest);
                     w.write_all(&b).unwrap();
+                } else if *op == "fl" {
+                    // flush_all in the middle of the stream
+                    w.flush_all().unwrap();
+                } else if *op == "fs" {
+                    // io::Write::flush: the cached bits stay cached
+                    w.flush().unwrap();
                 } else {
                     panic!("wop");
                 }
